@@ -458,8 +458,10 @@ func VerifH_proxy_intercept() {
 	obs := &vfBackendObs{}
 	withOpts := vfBool()
 	replace := 0
+	rewriteMD := false
 	if withOpts && !cs && !ss && !fail {
 		replace = vfChoice(3)
+		rewriteMD = replace != 2 && vfBool()
 	}
 	var ucalls, scalls int
 	var umethod, smethod string
@@ -471,6 +473,15 @@ func VerifH_proxy_intercept() {
 			UnaryServerInterceptorOption(func(ctx context.Context, req interface{}, info *grpc.UnaryServerInfo, handler grpc.UnaryHandler) (interface{}, error) {
 				ucalls++
 				umethod = info.FullMethod
+				if rewriteMD {
+					// an auth interceptor: strips one key, adds another; the handler (the backend) must see
+					// the metadata the interceptor passed on
+					md, _ := metadata.FromIncomingContext(ctx)
+					md = md.Copy()
+					delete(md, "x-md")
+					md.Set("grpc-previous-rpc-attempts", "7")
+					ctx = metadata.NewIncomingContext(ctx, md)
+				}
 				if replace == 2 {
 					// answers from a cache: the handler (the backend) is not called
 					m2 := req.(proto.Message).ProtoReflect().New().Interface()
@@ -506,7 +517,7 @@ func VerifH_proxy_intercept() {
 	body := append([]byte{0, 0, 0, 0, byte(len(p))}, p...)
 	hb := &vfHoldBody{data: body, closed: make(chan struct{})}
 	r := &http.Request{Method: "POST", URL: &url.URL{Path: "/vf.P/" + name},
-		Header: http.Header{"Content-Type": []string{"application/grpc+dual"}, "Te": []string{"trailers"}},
+		Header: http.Header{"Content-Type": []string{"application/grpc+dual"}, "Te": []string{"trailers"}, "X-Md": []string{"v0"}},
 		Body:   hb, ContentLength: -1, ProtoMajor: 2}
 	w := newFakeRW()
 	vfWatchdog(func() {
@@ -531,6 +542,12 @@ func VerifH_proxy_intercept() {
 			r0 := vfProtoStr(1, "r0")
 			vfCheck(vfBytesEq(w.body, append([]byte{0, 0, 0, 0, byte(len(r0))}, r0...)), "the client did not get the backend's reply")
 		}
+	}
+	if rewriteMD {
+		vfCheck(len(obs.md) == 0 && len(obs.mdGrpc) == 1 && obs.mdGrpc[0] == "7", "the backend of a proxied unary call did not receive the metadata its interceptor passed on")
+		vfCover("interceptor-rewrites-metadata")
+	} else if obs.calls == 1 {
+		vfCheck(len(obs.md) == 1 && obs.md[0] == "v0", "the backend did not receive the client's request metadata")
 	}
 	if !withOpts {
 		vfCover("options-off")
